@@ -18,6 +18,15 @@ RELATED = {
 }
 
 
+AREA = {  # area-based rounds (S / T / U + two digits): the checks that look at that source area
+    "01": ["C01", "C05", "C06", "C04", "C18"], "02": ["C02", "C03", "C06", "C04"],
+    "03": ["C01", "C05", "C06", "C04", "C08"], "04": ["C01", "C04", "C09", "C20", "C18"],
+    "05": ["C16", "C06", "C04", "C18"], "06": ["C01", "C02", "C05", "C06", "C04", "C20"],
+    "07": ["C10", "C11"], "08": ["C12", "C02", "C06", "C20"], "09": ["C13", "C14", "C15", "C03"],
+    "10": ["C07", "C08", "C19", "C03", "C06", "C05"],
+}
+
+
 def run_one(patch, props, jobs):
     scr = tempfile.mkdtemp(prefix="vfmx.", dir="/tmp")
     try:
@@ -86,7 +95,10 @@ def _main(args):
             if m:
                 known = json.load(open(os.path.join(VERIF, "known_findings.json")))
                 prop = next((f["property"] for f in known["fixed"] if f["commit"] == m.group(1)), None)
-        props = ALL if (all_checks or prop is None) else RELATED.get(prop, [prop])
+        if prop and re.fullmatch(r"[STU]\d\d", prop) and not all_checks:
+            props = AREA[prop[1:]]
+        else:
+            props = ALL if (all_checks or prop is None) else RELATED.get(prop, [prop])
         work.append((name, os.path.abspath(patch), props, t))
     # VF_MATRIX_FILE: write somewhere else (and leave the meta.json files alone) - used for runs at other seeds
     matrix_path = os.environ.get("VF_MATRIX_FILE") or os.path.join(VERIF, "seeded", "MATRIX.json")
